@@ -23,10 +23,10 @@ def with_variants(jobs, tier: str):
     keep = slice_keep(tier)
     base = sorted((j for j in jobs if tier != "quick" or keep(j)), key=lambda j: j["id"])
     # evenly spaced sub-slices: <= VT_V1_CAP programs get the syntactic, <= VT_V2_CAP the semantic variants
-    # (quick 200 / 60 of the slice, thorough 6000 / 1500 of all programs)
+    # (quick 200 / 60 of the slice, thorough 3000 / 400 of all programs)
     quick = tier == "quick"
-    base1 = _spread(base, int(os.environ.get("VT_V1_CAP", "200" if quick else "6000")))
-    base2 = _spread(base, int(os.environ.get("VT_V2_CAP", "60" if quick else "1500")))
+    base1 = _spread(base, int(os.environ.get("VT_V1_CAP", "200" if quick else "3000")))
+    base2 = _spread(base, int(os.environ.get("VT_V2_CAP", "60" if quick else "400")))
     return dedupe(chain(jobs, mutate.variants(base1), mutate.variants2(base2)))
 
 
